@@ -305,6 +305,10 @@ func (env *Env) loadNoAssume(p *Place) Value {
 func (env *Env) index(x *SIndex) Value {
 	base := env.eval(x.X)
 	i := env.evalI(x.I)
+	if len(base.L) == 1 && base.L[0].Sort == SArr && !base.SpecSl {
+		// ghost map (intmap)
+		return intVal(Select(base.L[0], i))
+	}
 	if base.SpecSl {
 		et := base.Typ.Underlying().(*types.Slice).Elem()
 		return Value{Typ: et, L: []Term{env.enc.elemAt(base.L[0], base.L[1], i)}}
@@ -366,11 +370,19 @@ func (env *Env) slice(x *SSlice) Value {
 func (env *Env) binary(x *SBinary) Value {
 	switch x.Op {
 	case "&&":
-		return boolVal(And(env.evalB(x.X), env.evalB(x.Y)))
+		a := env.evalB(x.X)
+		if a.S == "false" {
+			return boolVal(FalseT) // short-circuit (the right side may mention unbound locals)
+		}
+		return boolVal(And(a, env.evalB(x.Y)))
 	case "||":
 		return boolVal(Or(env.evalB(x.X), env.evalB(x.Y)))
 	case "==>":
-		return boolVal(Implies(env.evalB(x.X), env.evalB(x.Y)))
+		a := env.evalB(x.X)
+		if a.S == "false" {
+			return boolVal(TrueT)
+		}
+		return boolVal(Implies(a, env.evalB(x.Y)))
 	case "<==>":
 		return boolVal(Eq(env.evalB(x.X), env.evalB(x.Y)))
 	case "==", "!=":
@@ -539,6 +551,21 @@ func (env *Env) call(x *SCall) Value {
 	case "isnil":
 		a := env.eval(x.Args[0])
 		return boolVal(Eq(a.L[0], I(0)))
+	case "implements":
+		// implements(ifaceValue, InterfaceType): the comma-ok type assertion would succeed
+		a := env.eval(x.Args[0])
+		t := env.resolveType(strings.ReplaceAll(typeExprString(x.Args[1]), " ", ""))
+		fn := "impl_" + typeKey(t)
+		env.enc.declareFun(fn, []string{"Int"}, "Bool")
+		return boolVal(And(Not(Eq(a.L[0], I(0))), app(SBool, fn, a.L[0])))
+	case "bound":
+		// bound(x): the local variable x exists at this program point
+		id, ok := x.Args[0].(*SIdent)
+		if !ok {
+			env.fail("bound: identifier expected")
+		}
+		_, has := env.vars[id.Name]
+		return boolVal(B(has))
 	case "held", "wheld", "rheld", "unheld":
 		return env.lockPred(x)
 	case "unchanged":
@@ -546,6 +573,21 @@ func (env *Env) call(x *SCall) Value {
 	case "ghost":
 		id := x.Args[0].(*SIdent)
 		return intVal(env.st.heapArr("GH_"+id.Name, SInt))
+	case "fieldmap":
+		// fieldmap(Type.field) / fieldmap(Type.field, leaf): the current heap array of a
+		// single-word field (for recursive spec functions over linked structures)
+		tf := typeExprString(x.Args[0])
+		i := strings.LastIndex(tf, ".")
+		if i < 0 {
+			env.fail("fieldmap: Type.field expected")
+		}
+		t := env.resolveType(tf[:i])
+		name := "H_" + typeKey(t) + "." + tf[i+1:]
+		if len(x.Args) > 1 {
+			name += "." + x.Args[1].(*SIdent).Name
+		}
+		env.enc.registerRefLeaves("H_"+typeKey(t), t, 1)
+		return Value{Typ: tInt, L: []Term{env.st.heapArr(name, SArr)}}
 	}
 	if sf, ok := env.enc.db.Specs[x.Fn]; ok {
 		return env.callSpec(sf, x)
